@@ -25,6 +25,7 @@
 // values). Termination of the parser is not proved.
 use vstd::prelude::*;
 use vstd::string::*;
+use std::ops::ControlFlow;
 verus! {
 
 pub assume_specification<T>[core::mem::replace::<T>](dest: &mut T, src: T) -> (r: T)
@@ -97,6 +98,10 @@ impl<'source> Lexer<'source> {
         ensures
             final(self).source_len() == old(self).source_len(),
             old(self).span_end() <= final(self).span_start() <= final(self).span_end() <= final(self).source_len(),
+            // a string token is the opening quote plus what lex_string bumped over (at least the
+            // closing quote), a block string the opening `"""` plus at least the closing one
+            r == Some(IsographLangTokenKind::StringLiteral) ==> final(self).span_end() - final(self).span_start() >= 2,
+            r == Some(IsographLangTokenKind::BlockStringLiteral) ==> final(self).span_end() - final(self).span_start() >= 6,
     { unimplemented!() }
     #[verifier::external_body]
     pub fn span(&self) -> (r: core::ops::Range<usize>)
@@ -114,10 +119,15 @@ pub assume_specification<'a>[str::trim](s: &'a str) -> (r: &'a str) ensures byte
 pub fn lexer_for<'a>(source: &'a str) -> (r: Lexer<'a>)
     ensures r.span_start() == 0, r.span_end() == 0, r.source_len() == byte_len(source)
 { unimplemented!() }
+/// `s.len()` in arithmetic position (vstd specifies str::len by a `returns` clause that the
+/// installed Verus applies in cast position only)
+#[verifier::external_body]
+pub fn str_len(s: &str) -> (r: usize) ensures r == byte_len(s) { unimplemented!() }
 /// `&s[start..end]`: in range (char boundaries assumed from logos)
 #[verifier::external_body]
 pub fn str_slice<'a>(s: &'a str, start: usize, end: usize) -> (r: &'a str)
     requires start <= end <= byte_len(s)
+    ensures byte_len(r) == end - start
 { unimplemented!() }
 
 // =====================================================================================
@@ -184,6 +194,15 @@ impl<T, TLocation> WithGenericLocation<T, TLocation> {
         requires map.requires((self.item,)),
         ensures r.location == self.location, map.ensures((self.item,), r.item),
 //@end
+//@fn rel=crates/common_lang_types/src/location.rs name=and_then within="impl<T, TLocation> WithGenericLocation<T, TLocation>" vis=pub ret=r
+//@rw R6b R4
+//@hsub "map: impl FnOnce\(T\) -> Result<U, E>," => "map: F,"
+//@hsub "fn and_then<U, E>" => "fn and_then<U, E, F: FnOnce(T) -> Result<U, E>>"
+//@contract
+        requires map.requires((self.item,)),
+        ensures r is Ok ==> r->Ok_0.location == self.location && map.ensures((self.item,), Ok(r->Ok_0.item)),
+            r is Err ==> map.ensures((self.item,), Err(r->Err_0)),
+//@end
 }
 //@item rel=crates/common_lang_types/src/span.rs kind=struct name=WithSpan prefix="#[derive(Copy, Clone)] pub"
 impl<T> WithSpan<T> {
@@ -216,6 +235,8 @@ impl<'source> PeekableLexer<'source> {
         &&& self.current.span.start <= self.current.span.end
         &&& self.current.span.end <= self.lexer.source_len()
         &&& self.lexer.span_end() == self.current.span.end
+        &&& self.current.item == IsographLangTokenKind::StringLiteral ==> self.current.span.end - self.current.span.start >= 2
+        &&& self.current.item == IsographLangTokenKind::BlockStringLiteral ==> self.current.span.end - self.current.span.start >= 6
         &&& tokens_ordered(self.semantic_tokens@)
         &&& forall|i: int| 0 <= i < self.semantic_tokens@.len() ==> (#[trigger] tok_span(self.semantic_tokens@[i])).end <= self.current.span.start
     }
@@ -313,6 +334,7 @@ impl<'source> PeekableLexer<'source> {
 //@contract
         // callers pass spans of tokens handed out by this cursor
         requires self.offset == 0, span.start <= span.end, span.end <= byte_len(self.source),
+        ensures byte_len(r) == span.end - span.start,
 //@end
 
 //@fn rel=crates/isograph_lang_parser/src/peekable_lexer.rs name=parse_token_of_kind within="impl<'source> PeekableLexer<'source>" vis=pub ret=r serves=C07
@@ -343,6 +365,10 @@ impl<'source> PeekableLexer<'source> {
             (r is Ok) == (old(self).current.item == expected_kind),
             r is Ok ==> final(self).progressed(old(self)) && r->Ok_0.location.span == old(self).current.span
                 && r->Ok_0.location.span.end <= byte_len(old(self).source), //@O C07.O-1_source_of_kind_span_inside_literal
+            // the text handed out is the token's text: a string token comes with both quotes
+            r is Ok ==> byte_len(r->Ok_0.item) == r->Ok_0.location.span.end - r->Ok_0.location.span.start,
+            r is Ok && expected_kind == IsographLangTokenKind::StringLiteral ==> byte_len(r->Ok_0.item) >= 2,
+            r is Ok && expected_kind == IsographLangTokenKind::BlockStringLiteral ==> byte_len(r->Ok_0.item) >= 6,
             r is Err ==> final(self).not_moved(old(self)),
 //@end
 
@@ -888,6 +914,23 @@ pub fn parse_optional_description(tokens: &mut PeekableLexer<'_>) -> (r: Option<
 // Dropped: the `from_control_flow(|| { to_control_flow(|| ALT)?; .. })` glue (first alternative
 // that returns Ok wins; an Err falls through to the next one with the cursor where it is).
 
+// the two glue combinators themselves (generic, no cursor): to_control_flow turns Ok into
+// Break and Err into Continue, from_control_flow turns them back
+//@fn rel=crates/isograph_lang_parser/src/parse_iso_literal.rs name=to_control_flow vis=pub ret=r serves=C07
+//@hsub "result: impl FnOnce\(\) -> Result<T, E>" => "result: F"
+//@hsub "to_control_flow<T, E>" => "to_control_flow<T, E, F: FnOnce() -> Result<T, E>>"
+//@contract
+    requires result.requires(()),
+    ensures match r { ControlFlow::Break(t) => result.ensures((), Ok(t)), ControlFlow::Continue(e) => result.ensures((), Err(e)) }, //@O C07.O-6_to_control_flow_is_the_callbacks_result
+//@end
+//@fn rel=crates/isograph_lang_parser/src/parse_iso_literal.rs name=from_control_flow vis=pub ret=r serves=C07
+//@hsub "control_flow: impl FnOnce\(\) -> ControlFlow<T, E>" => "control_flow: F"
+//@hsub "from_control_flow<T, E>" => "from_control_flow<T, E, F: FnOnce() -> ControlFlow<T, E>>"
+//@contract
+    requires control_flow.requires(()),
+    ensures match r { Ok(t) => control_flow.ensures((), ControlFlow::Break(t)), Err(e) => control_flow.ensures((), ControlFlow::Continue(e)) }, //@O C07.O-6_from_control_flow_is_the_callbacks_result
+//@end
+
 /// alternative 1 of parse_non_constant_value: `$name`
 pub fn non_constant_value_alt_variable(tokens: &mut PeekableLexer<'_>) -> (r: Result<WithEmbeddedLocation<NonConstantValue>, Diagnostic>)
     requires old(tokens).inv(),
@@ -895,6 +938,36 @@ pub fn non_constant_value_alt_variable(tokens: &mut PeekableLexer<'_>) -> (r: Re
         r is Ok ==> final(tokens).progressed(old(tokens)),
 {
 //@expr rel=crates/isograph_lang_parser/src/parse_iso_literal.rs fn=parse_non_constant_value start="to_control_flow::<_, Diagnostic>(|| {" skip="to_control_flow::<_, Diagnostic>(||" nth=0 block=non_constant_value_alt_variable serves=C07 sub="name\.map\(NonConstantValue::Variable\)=>name.map(|v| NonConstantValue::Variable(v))" rw=R4
+}
+
+/// alternative 2 of parse_non_constant_value: a string literal; the quotes are cut off with
+/// `source_with_quotes[1..source_with_quotes.len() - 1]` (in range because a string token
+/// comes with both quotes)
+pub fn non_constant_value_alt_string(tokens: &mut PeekableLexer<'_>) -> (r: Result<WithEmbeddedLocation<NonConstantValue>, Diagnostic>)
+    requires old(tokens).inv(),
+    ensures final(tokens).inv(), final(tokens).same_literal(old(tokens)), final(tokens).monotone(old(tokens)), //@O C07.O-6_value_alternative_string_preserves_cursor_invariant
+        r is Ok ==> final(tokens).progressed(old(tokens)),
+{
+//@expr rel=crates/isograph_lang_parser/src/parse_iso_literal.rs fn=parse_non_constant_value start="to_control_flow::<_, Diagnostic>(|| {" skip="to_control_flow::<_, Diagnostic>(||" nth=1 block=non_constant_value_alt_string serves=C07 sub="source_with_quotes\[1\.\.source_with_quotes\.len\(\) - 1\]\s*\.intern\(\)\s*\.into\(\)=>From::from(intern_str(str_slice(source_with_quotes, 1, str_len(source_with_quotes) - 1)))" sub2="\|parsed_str\| \{=>|parsed_str: WithEmbeddedLocation<&str>| -> (o: WithEmbeddedLocation<StringLiteralValue>) requires byte_len(parsed_str.item) >= 2 {" sub3="\|source_with_quotes\| \{=>|source_with_quotes: &str| -> (v: StringLiteralValue) requires byte_len(source_with_quotes) >= 2 {" sub4="string\.map\(NonConstantValue::String\)=>string.map(|v| NonConstantValue::String(v))" rw=R4
+}
+
+/// alternative 3 of parse_non_constant_value: an integer literal (the conversion itself is
+/// integer_literal_value above)
+pub fn non_constant_value_alt_integer(tokens: &mut PeekableLexer<'_>) -> (r: Result<WithEmbeddedLocation<NonConstantValue>, Diagnostic>)
+    requires old(tokens).inv(),
+    ensures final(tokens).inv(), final(tokens).same_literal(old(tokens)), final(tokens).monotone(old(tokens)), //@O C07.O-6_value_alternative_integer_preserves_cursor_invariant
+        r is Ok ==> final(tokens).progressed(old(tokens)) && located_from(r->Ok_0, old(tokens)),
+{
+//@expr rel=crates/isograph_lang_parser/src/parse_iso_literal.rs fn=parse_non_constant_value start="to_control_flow::<_, Diagnostic>(|| {" skip="to_control_flow::<_, Diagnostic>(||" nth=2 block=non_constant_value_alt_integer serves=C07 sub="number\.parse\(\)=>parse_i64(number)" rw=R15,R4
+}
+
+/// alternative 5 of parse_non_constant_value: `null`, `true`, `false`
+pub fn non_constant_value_alt_bool_or_null(tokens: &mut PeekableLexer<'_>) -> (r: Result<WithEmbeddedLocation<NonConstantValue>, Diagnostic>)
+    requires old(tokens).inv(),
+    ensures final(tokens).inv(), final(tokens).same_literal(old(tokens)), final(tokens).monotone(old(tokens)), //@O C07.O-6_value_alternative_bool_or_null_preserves_cursor_invariant
+        r is Ok ==> final(tokens).progressed(old(tokens)) && located_from(r->Ok_0, old(tokens)),
+{
+//@expr rel=crates/isograph_lang_parser/src/parse_iso_literal.rs fn=parse_non_constant_value start="to_control_flow(|| {" skip="to_control_flow(||" nth=0 block=non_constant_value_alt_bool_or_null serves=C07 sub="bool\.parse::<bool>\(\)=>parse_bool(bool)" rw=R15,R4
 }
 
 /// alternative 4 of parse_non_constant_value: `{ key: value, .. }` — its span joins the
@@ -992,6 +1065,11 @@ pub uninterp spec fn is_integer_literal(s: &str) -> bool;
 pub uninterp spec fn fits_i64(s: &str) -> bool;
 #[derive(Debug)]
 pub struct ParseIntError { p: core::marker::PhantomData<u8> }
+#[derive(Debug)]
+pub struct ParseBoolError { p: core::marker::PhantomData<u8> }
+/// str::parse::<bool>
+#[verifier::external_body]
+pub fn parse_bool(s: &str) -> Result<bool, ParseBoolError> { unimplemented!() }
 #[verifier::external_body]
 pub fn parse_i64(s: &str) -> (r: Result<i64, ParseIntError>) ensures (r is Ok) == fits_i64(s) { unimplemented!() }
 pub struct Location { pub embedded: EmbeddedLocation }
